@@ -367,6 +367,8 @@ expraction	: BREAK {
 				yyerror("invalid exec options");
 		}
 		| ATTACHMENT exprblock {
+			if (expr_count_actions($2) == 0)
+				yyerror("empty nested match block");
 			expr_validate_attachment_block($2);
 			$$ = expr_alloc(EXPR_TYPE_ATTACHMENT_BLOCK, lineno, $2,
 			    NULL);
